@@ -7,6 +7,7 @@ package main
 import (
 	"fmt"
 	"go/ast"
+	"go/token"
 	"go/types"
 	"sort"
 	"strings"
@@ -700,6 +701,52 @@ func ruleHndFields(c *Ctx, r *R) {
 					fields[k] = kv.Value
 				}
 			}
+			// ins := instruction{...}; ins.C = ... — fields added to the literal before it is appended
+			if as, ok := c.Parent(cl).(*ast.AssignStmt); ok && len(as.Lhs) == 1 {
+				if id, ok := as.Lhs[0].(*ast.Ident); ok {
+					o := c.Obj(id)
+					if fd := c.EnclosingFunc(cl); fd != nil && o != nil {
+						ast.Inspect(fd.Body, func(m ast.Node) bool {
+							as2, ok := m.(*ast.AssignStmt)
+							if !ok {
+								return true
+							}
+							for i, l := range as2.Lhs {
+								sel, ok := unparen(l).(*ast.SelectorExpr)
+								if !ok {
+									continue
+								}
+								bid, ok := unparen(sel.X).(*ast.Ident)
+								if !ok || c.Obj(bid) != o || i >= len(as2.Rhs) {
+									continue
+								}
+								ops := codes
+								// restricted by an enclosing `if <x> == codeName`
+								for p := c.Parent(as2); p != nil && p != ast.Node(fd); p = c.Parent(p) {
+									if ifs, ok := p.(*ast.IfStmt); ok {
+										if be, ok := unparen(ifs.Cond).(*ast.BinaryExpr); ok && be.Op == token.EQL {
+											if nm := c.codeConstName(be.Y); nm != "" {
+												ops = []string{nm}
+											} else if nm := c.codeConstName(be.X); nm != "" {
+												ops = []string{nm}
+											}
+										}
+									}
+								}
+								for _, op := range ops {
+									e := get(op)
+									e.set[sel.Sel.Name] = true
+									e.nSet[sel.Sel.Name]++
+									if call, ok := unparen(as2.Rhs[i]).(*ast.CallExpr); ok && c.CalleeName(call) == "joinParams" {
+										e.packed[sel.Sel.Name]++
+									}
+								}
+							}
+							return true
+						})
+					}
+				}
+			}
 			for _, op := range codes {
 				e := get(op)
 				e.n++
@@ -995,6 +1042,15 @@ func ruleInsPatch(c *Ctx, r *R) {
 				}
 				if sel.Sel.Name != "A" && sel.Sel.Name != "B" && sel.Sel.Name != "C" && sel.Sel.Name != "Code" {
 					continue
+				}
+				// a local instruction value that is still being built (ins := instruction{...};
+				// ins.C = ...; res = append(res, ins)) is not an emitted instruction
+				if id, ok := unparen(sel.X).(*ast.Ident); ok {
+					if def := c.singleDef(id); def != nil {
+						if _, isLit := unparen(def).(*ast.CompositeLit); isLit {
+							continue
+						}
+					}
 				}
 				n++
 				elem := nosp(c.Src(sel.X))
